@@ -392,7 +392,7 @@ Proof.
   intros (Ha & _ & _) Hops Hb.
   destruct (zone_build_R apex s ops (proj1 Ha)) as (z0 & Hb0 & A0 & S0 & R0).
   { revert Hops. apply Forall_impl. intros o Ho. apply Ho. }
-  rewrite Hb in Hb0. injection Hb0 as <-. repeat split; try assumption.
+  rewrite Hb in Hb0. injection Hb0 as <-. split; [exact A0|]. split; [exact S0|]. split; [exact R0|].
   apply flat_of_ops_ok. revert Hops. apply Forall_impl. intros o Ho. apply Ho.
 Qed.
 
@@ -433,20 +433,20 @@ Proof.
                     (w = false -> first_label (mkname (p ++ labels apex)) <> S_STAR)).
     { destruct zrs as [|zr0 zrs0]; [exfalso; exact (Hnel _ _ Hin eq_refl)|].
       destruct (Hall zr0 (or_introl eq_refl)) as [(-> & -> & _)|(o & Ho & Hw & Hp & _)].
-      - cbn [app]. rewrite (mkname_of_wf apex [] (labels apex) (proj1 Hap) eq_refl).
+      - rewrite (mkname_of_wf apex [] (labels apex) (proj1 Hap) eq_refl).
         split; [exact Hap|]. split; [|intros _; exact Hafl].
         unfold under. apply subdomain_is_suffix. exists []. reflexivity.
       - rewrite Forall_forall in Hops. destruct (Hops o Ho) as (Hon & Hofl & _).
         apply rel_path_some in Hp. rewrite (mkname_of_wf (op_name o) p (labels apex) (proj1 Hon) Hp).
         split; [exact Hon|]. split; [|intro E; apply Hofl; congruence].
         unfold under. apply subdomain_is_suffix. exists p. exact Hp. }
-    destruct Hname as (N1 & N2 & N3). repeat split; try assumption.
+    destruct Hname as (N1 & N2 & N3). split; [exact N1|]. split; [exact N2|]. split; [exact N3|].
     apply Forall_forall. intros zr Hzr. destruct (Hall zr Hzr) as [(-> & -> & so & -> & ->)|(o & Ho & Hw & Hp & ->)].
     - left. split; reflexivity.
     - right. rewrite Forall_forall in Hops. destruct (Hops o Ho) as (_ & _ & Hk & Hns & Hsh & Hrd & Httl).
-      split; [|exact Hns]. unfold zrec_ok. cbn [op_zrec zr_type zr_data zr_ttl]. repeat split; try assumption.
-      apply clamp_u32; assumption. }
-  unfold zone_src_ok. rewrite Ea, Es. repeat split; try assumption.
+      split; [|exact Hns]. unfold zrec_ok. cbn [op_zrec zr_type zr_data zr_ttl].
+      split; [exact Hk|]. split; [exact Hsh|]. split; [exact Hrd|]. apply clamp_u32; assumption. }
+  unfold zone_src_ok. rewrite Ea, Es. split; [exact Hap|]. split; [exact Hafl|]. split; [exact Hsoa|]. split.
   - intros n zrs Hin. exact (Hrec false recs n zrs Hd0 Hne Hin).
   - intros n zrs Hin. exact (Hrec true wrecs n zrs Hdw0 Hwne Hin).
 Qed.
@@ -485,7 +485,9 @@ Section SerialiseExt.
   Lemma serialise_with_ext recs wrecs : zone_serialise_with ip z' recs wrecs = zone_serialise_with ip z recs wrecs.
   Proof.
     unfold zone_serialise_with, soa_block. rewrite Hs, Ha, domain_blocks_ext.
-    destruct (z_soa z); [rewrite serialise_rdata_ext|]; reflexivity.
+    assert (E : forall so, serialise_rdata ip z' (soa_to_rdata so) = serialise_rdata ip z (soa_to_rdata so))
+      by (intro; apply serialise_rdata_ext).
+    destruct (z_soa z) as [so|]; [rewrite E|]; reflexivity.
   Qed.
 End SerialiseExt.
 
@@ -509,13 +511,13 @@ Section RoundTrip.
       unfold nonsoa in Hns. apply negb_true_iff, N.eqb_neq in Hns.
       destruct (Hall zr Hzr) as [[_ F]|[(K & Sh & Rd & Tt) Ns]]; [contradiction|].
       unfold op_src_ok. cbn [op_of_rr zr_to_rr op_name op_wild op_type op_data op_ttl rr_name rr_type rr_data rr_ttl].
-      repeat split; auto.
+      split; [exact N1|]. split; [exact N3|]. auto.
     - unfold block_wrrs in Hr. apply in_map_iff in Hr as (zr & <- & Hzr).
       unfold lookup in Hzr. destruct (alookup dname_eqb d wrecs) as [zrs|] eqn:E; [|destruct Hzr].
       apply alookup_some in E. destruct (Hwrecs d zrs E) as (N1 & _ & _ & Hall). rewrite Forall_forall in Hall.
       destruct (Hall zr Hzr) as [[F _]|[(K & Sh & Rd & Tt) Ns]]; [discriminate|].
       unfold op_src_ok. cbn [op_of_rr zr_to_rr op_name op_wild op_type op_data op_ttl rr_name rr_type rr_data rr_ttl].
-      repeat split; auto. discriminate.
+      split; [exact N1|]. split; [discriminate|]. auto.
   Qed.
 
   (* C13: for every built zone and every admissible record order, the text the serialiser
@@ -559,6 +561,6 @@ Section RoundTrip.
     rewrite Etxt in E0. injection E0 as <-. rewrite Ed in D0. injection D0 as <-.
     split; [exact T0|]. intros recs' wrecs' Hadm'.
     destruct (zone_roundtrip z' recs' wrecs' B0 Hadm') as (txt' & z'' & E1 & D1 & S1 & _).
-    exists txt', z''. repeat split; try assumption. eapply zone_same_trans; eassumption.
+    exists txt', z''. split; [exact E1|]. split; [exact D1|]. split; [exact S1|]. eapply zone_same_trans; eassumption.
   Qed.
 End RoundTrip.
